@@ -32,8 +32,20 @@ def rule_seedrow(ctx):
         tabs = {p for p, s in pa.items() if s & {"cms", "lhh", "lhh_count", "key_lens"}}
         hcalls = [e for e in w.events if e.kind == "call" and e.name == "fasthash64"]
         if not hcalls:
-            ctx.ob("seedrow", k, k.node, k.name, "cell-addressing kernel hashes the key", False, "no fasthash64 call")
-            continue
+            # hashing delegated to a helper: every return path of the helper must be this row's hash
+            from .rules_arith import helper_hash_summary
+            helpers = [(e, helper_hash_summary(F, e.callee)) for e in w.events if e.kind == "call" and e.callee is not None
+                       and e.callee.is_kernel and e.loops]
+            prov = [(e, sm) for e, sm in helpers if sm is not None]
+            if not prov:
+                ctx.ob("seedrow", k, k.node, k.name, "cell-addressing kernel hashes the key", None if helpers else False,
+                       "no fasthash64 call and no helper recognised as the column provider")
+                continue
+            for e, sm in prov:
+                n += 1
+                okk = sm[0] == "ok"
+                ctx.ob("seedrow", k, e.node, "%s via %s" % (src(k, e.node, 60), e.callee.name), "each row hashes with its own seed and the column is hash % width",
+                       okk, "" if okk else sm[1])
         for g in group_by_node(hcalls):
             n += 1
             res = []
@@ -58,13 +70,14 @@ def rule_seedrow(ctx):
             evs = [x for x in on_path(w.events, e) if x.loops == e.loops]
             okk = len(nums) >= 2 and lp.varterm is not None and nums[0].lin == Lin.term(lp.varterm)
             if okk:
+                from .rules_arith import helper_column
                 col = nums[1]
                 t = col.lin.single_term()
                 if t is not None and t[0] == "cell":
                     st = [s for s in evs if s.kind == "store" and s.arr.name == t[1] and len(s.idx) == 1 and s.idx[0].lin == Lin.term(lp.varterm)]
-                    okk = bool(st) and hash_site(w, evs, st[-1].value, e) is not None
+                    okk = bool(st) and (hash_site(w, evs, st[-1].value, e) is not None or helper_column(F, w, evs, st[-1].value, lp, k) is True)
                 else:
-                    okk = hash_site(w, evs, col, e) is not None
+                    okk = hash_site(w, evs, col, e) is not None or helper_column(F, w, evs, col, lp, k) is True
             res.append((bool(okk), "table cell is [row, this row's hash column]" if okk else "table access is not [row, hash(key,row) % width]", fact_strs(e)))
         if acc:
             agg(ctx, "seedrow", k, acc[0].node, "%s: table accesses" % k.name, "cells are addressed [row, fasthash64(key, seed(row)) % width]", res)
